@@ -163,6 +163,13 @@ func genSynthetic(t *rapid.T) *Case {
 		c.WordSpacing = rapid.SampledFrom([]int32{128, 33, -32, 320}).Draw(t, "ws")
 	}
 	genConfig(t, c)
+	if c.Vertical {
+		// orientation bits: runs upright / sideways / unset, mixed; paragraph direction plain or flagged
+		for i := range c.Runs {
+			c.Runs[i].Orient = rapid.IntRange(0, 2).Draw(t, "runOrientation")
+		}
+		c.Cfg.Orient = rapid.SampledFrom([]int{0, 2, 1, 0}).Draw(t, "paragraphOrientation")
+	}
 	return c
 }
 
@@ -426,10 +433,26 @@ func genPipeline(t *rapid.T) *Case {
 // confuse). Pipeline cases get a synthetic predecessor as well (the wrapper does not care).
 func genPrev(t *rapid.T, c *Case) {
 	switch rapid.IntRange(0, 9).Draw(t, "prevKind") {
+	case 4:
+		// the same buffer edited in place: same length, some runes re-drawn, one plain run
+		if c.Family == "pipeline" || len(c.Text) == 0 {
+			return
+		}
+		p := &Case{Family: "synthetic", Text: append([]rune(nil), c.Text...)}
+		for i := range p.Text {
+			if rapid.Bool().Draw(t, "edit") {
+				p.Text[i] = rapid.SampledFrom(alphabetA).Draw(t, "editedRune")
+			}
+		}
+		p.Runs = []RunSpec{genRun(t, p.Text, 0, len(p.Text))}
+		genConfig(t, p)
+		p.Widths = []int{rapid.IntRange(0, 40).Draw(t, "prevWidth")}
+		c.Prev, c.PrevShared = p, true
 	case 0, 1:
 		p := genSynthetic(t)
 		p.Widths = []int{rapid.IntRange(0, 40).Draw(t, "prevWidth")}
 		c.Prev = p
+		c.PrevShared = rapid.Bool().Draw(t, "sameBuffer") // same array, (usually) another length
 	case 2, 3:
 		if c.Family != "synthetic" || len(c.Runs) == 0 || len(c.Text) == 0 {
 			return
